@@ -1,7 +1,7 @@
 (* Run/EvalProps.v — per-property projections of the state-machine trace.
    Each property compares only the part of the trace it speaks about, so an
    observable but unrelated rewrite does not alarm properties it does not touch. *)
-Require Export Verif.Run.EvalSM Verif.Model.Monitors Verif.Model.Monitors18 Verif.Proofs.Monitor.
+Require Export Verif.Run.EvalSM Verif.Model.Monitors Verif.Model.Monitors18 Verif.Model.Monitors2b Verif.Proofs.Monitor.
 Open Scope N_scope.
 
 Definition is_metric (f : metric -> bool) (a : action) : bool := match a with AMetric m => f m | _ => false end.
@@ -43,7 +43,8 @@ Definition proj_c18 (a : action) : bool :=
   | _ => false
   end.
 
-Definition mon_c02 (c : smcase) (t : list action) : bool := match c with KSm _ _ _ cup _ _ _ _ => accepts step2 (init2 cup) t end.
+Definition mon_c02 (c : smcase) (t : list action) : bool :=
+  match c with KSm _ _ _ cup _ _ _ _ => accepts step2 (init2 cup) t && accepts step2b (init2b cup) t end.
 Definition run_c02 := run_sm proj_c02 mon_c02.
 Definition mon_c04 (c : smcase) (t : list action) : bool := match c with KSm _ _ _ cup _ _ _ _ => accepts step4 (init4 cup) t end.
 Definition run_c04 := run_sm proj_c04 mon_c04.
@@ -56,7 +57,9 @@ Definition run_c06 := run_sm proj_c06 mon_c06.
 Definition mon_c07 (c : smcase) (t : list action) : bool := match c with KSm _ _ _ cup _ e _ _ => accepts step7 (init7 cup (e_store e)) t end.
 Definition run_c07 := run_sm proj_c07 mon_c07.
 Definition mon_c08 (c : smcase) (t : list action) : bool :=
-  match c with KSm _ cfg url cup apps e _ _ => accepts step8 (init8 cfg url cup apps (e_store e)) t end.
+  match c with KSm _ cfg url cup apps e _ _ =>
+    (* the poll interval is part of C08's durable state: its rules are C07's monitor *)
+    accepts step8 (init8 cfg url cup apps (e_store e)) t && accepts step7 (init7 cup (e_store e)) t end.
 Definition run_c08 := run_sm proj_c08 mon_c08.
 Definition mon_c09 (c : smcase) (t : list action) : bool :=
   match c with KSm _ _ _ cup apps e _ _ => accepts step9 (init9 cup apps (e_store e)) t end.
